@@ -615,7 +615,7 @@ func init() {
 		Rule: "case = (array type U16/U32/U64/I16/I32/I64, ascending index set in [0,2^20) - empty, single, dense, holes, sparse with empty 64-bit words, clusters, word boundaries, top of range - and full-range elements); oracle: a Go map compared at every index of the bitmap span (spans <= 2^16) or all present indexes, their neighbours and 10^4 random probes, through the typed accessor, Base.GetBytes, array.New and NewEmpty+Init generic accessors, and after proto round trips into the typed and the generic type (and generic -> typed); re-marshal reproduces the bytes; struct elements and defined (named) integer/array element types through the generic array (same dynamic type and value before and after a round trip); an equal and a descending neighbour at every position of lists of <=16 indexes (4 seeded positions of longer ones) and length mismatches of +1, -1 and a seeded amount are rejected with ErrIndexNotAscending / ErrIndexLen (by identity) and a nil array; a rejected Init called directly leaves a fresh value empty (Cnt, bitmap, offsets, elements) and an array in use byte-identical; non-trivial = at least 2 elements",
 		NumCases: func(tier string) int {
 			if tier == "thorough" {
-				return 40000
+				return 300000
 			}
 			return 2400
 		},
